@@ -11,9 +11,18 @@
 //     ?cookieCheck=1 after pathManager.AddReader authenticated the client; its "secret" is the UUID
 //     handed back either as cookie hlsSession (when the cookieCheck cookie came back) or as query
 //     parameter session= inside the playlist URIs;
-//   - "same IP": session.ip (host part of httpp.RemoteAddr = gin ClientIP) vs ctx.ClientIP(); the
-//     only trusted proxy is 127.0.0.1, so the harness chooses the client IP with X-Forwarded-For
-//     (the right-most entry is what the proxy itself appended, i.e. the real peer);
+//   - "same IP": session.ip (host part of httpp.RemoteAddr = gin ClientIP) vs ctx.ClientIP(). Which
+//     address "the IP of a request" is depends on the configuration, so it is a dimension of Init:
+//   - proxy world (Server.TrustedProxies = 127.0.0.1/32): the harness plays the trusted proxy and
+//     chooses the client IP with X-Forwarded-For (the right-most entry is what the proxy itself
+//     appended, i.e. the real peer);
+//   - direct world (Server.TrustedProxies empty, THE DEFAULT): nobody is trusted, the IP of a
+//     request is the source address of its TCP connection. The harness binds its client sockets to
+//     distinct loopback source addresses (127.0.0.1, 127.0.0.2: every 127/8 address is local on
+//     Linux) and crosses every request with client-supplied forwarding headers that name the
+//     OTHER address (X-Forwarded-For, X-Real-Ip, both, chains, Forwarded, platform headers): they
+//     must never change whose request it is, neither when a session is created nor when its
+//     secret is presented;
 //   - "CDN secret": Authorization: Bearer <Server.CDNSecret> (only when CDNSecret is configured);
 //   - "media playlists and segments": every file the gohlslib muxer of the path serves except the
 //     multivariant playlist index.m3u8 (that request creates sessions): media playlist, init,
@@ -66,30 +75,37 @@ const cdnSecret = "myCDNsecret"
 
 var pathNames = []string{"a", "b"}
 
-var ips = []string{"10.0.0.1", "10.0.0.2"}
+// client IPs per world (index = op.Px): proxy world (chosen with X-Forwarded-For through the trusted
+// proxy 127.0.0.1), direct world (TCP source addresses of the client sockets)
+var worldIPs = [2][]string{{"10.0.0.1", "10.0.0.2"}, {"127.0.0.1", "127.0.0.2"}}
+
+const (
+	pxProxy  = 0 // TrustedProxies = 127.0.0.1/32
+	pxDirect = 1 // TrustedProxies empty (default configuration)
+)
 
 type cred struct {
 	name, user, pass string
 }
 
 var creds = []cred{
-	{"alice", "alice", "apass"},    // may read every path from anywhere
-	{"bob", "bob", "bpass"},        // may read path b only
-	{"carol", "carol", "cpass"},    // may read path a, only from 10.0.0.1
-	{"badpass", "alice", "wrong"},  // wrong password
-	{"nocreds", "", ""},            // no credentials at all
+	{"alice", "alice", "apass"},     // may read every path from anywhere
+	{"bob", "bob", "bpass"},         // may read path b only
+	{"carol", "carol", "cpass"},     // may read path a, only from the first IP of the world
+	{"badpass", "alice", "wrong"},   // wrong password
+	{"nocreds", "", ""},             // no credentials at all
 	{"unknown", "mallory", "apass"}, // unknown user
 }
 
 // modelAuthorized is the reference decision, written from the user table above.
-func modelAuthorized(c cred, path string, ip string) bool {
+func modelAuthorized(c cred, path string, ip string, px int) bool {
 	switch {
 	case c.user == "alice" && c.pass == "apass":
 		return true
 	case c.user == "bob" && c.pass == "bpass":
 		return path == "b"
 	case c.user == "carol" && c.pass == "cpass":
-		return path == "a" && ip == "10.0.0.1"
+		return path == "a" && ip == worldIPs[px][0]
 	}
 	return false
 }
@@ -102,7 +118,7 @@ func ipnet(s string) conf.IPNetwork {
 	return conf.IPNetwork{IP: n.IP.To4(), Mask: n.Mask}
 }
 
-func newAuthManager() *auth.Manager {
+func newAuthManager(px int) *auth.Manager {
 	rd := func(p string) []conf.AuthInternalUserPermission {
 		return []conf.AuthInternalUserPermission{{Action: conf.AuthActionRead, Path: p}}
 	}
@@ -111,7 +127,7 @@ func newAuthManager() *auth.Manager {
 		InternalUsers: []conf.AuthInternalUser{
 			{User: "alice", Pass: "apass", Permissions: rd("")},
 			{User: "bob", Pass: "bpass", Permissions: rd("b")},
-			{User: "carol", Pass: "cpass", IPs: conf.IPNetworks{ipnet("10.0.0.1/32")}, Permissions: rd("a")},
+			{User: "carol", Pass: "cpass", IPs: conf.IPNetworks{ipnet(worldIPs[px][0] + "/32")}, Permissions: rd("a")},
 			// a publisher account that must not grant reading
 			{User: "pub", Pass: "ppass", Permissions: []conf.AuthInternalUserPermission{{Action: conf.AuthActionPublish}}},
 		},
@@ -240,19 +256,29 @@ const (
 type op struct {
 	Kind int
 	Cfg  int // opInit: 0 = CDN secret configured, 1 = not configured
+	Px   int // world (set by Init, copied into every later operation): pxProxy | pxDirect
 	Path int
 	IP   int
 	Cred int
 	Mode int // opCreate: 0 = secret via query parameter, 1 = via cookie; opCDN: 0 = Bearer <the CDN secret>, 1 = "Bearer " (empty)
 	K    int // opKick: index into the sessions created so far
+	// opCreate: client-supplied forwarding header that names the OTHER IP of the world
+	// (0 = none, 1 = X-Forwarded-For, 2 = X-Real-Ip). Proxy world: the proxy appends the real peer
+	// to the client's X-Forwarded-For ("other, real") and passes X-Real-Ip through.
+	Forge int
 }
+
+var forgeNames = []string{"", ",forged-xff", ",forged-x-real-ip"}
 
 func (o op) String() string {
 	switch o.Kind {
 	case opInit:
+		if o.Px == pxDirect {
+			return []string{"Init(cdn=on,no-trusted-proxies)", "Init(cdn=off,no-trusted-proxies)"}[o.Cfg]
+		}
 		return []string{"Init(cdn=on)", "Init(cdn=off)"}[o.Cfg]
 	case opCreate:
-		return fmt.Sprintf("Create(%s,%s,%s,%s)", pathNames[o.Path], ips[o.IP], creds[o.Cred].name, []string{"query", "cookie"}[o.Mode])
+		return fmt.Sprintf("Create(%s,%s,%s,%s%s)", pathNames[o.Path], worldIPs[o.Px][o.IP], creds[o.Cred].name, []string{"query", "cookie"}[o.Mode], forgeNames[o.Forge])
 	case opCDN:
 		return fmt.Sprintf("CDNIndex(%s,%s)", pathNames[o.Path], []string{"bearer-cdn", "bearer-empty"}[o.Mode])
 	default:
@@ -285,14 +311,17 @@ type msession struct {
 	authorized bool // per the reference model
 	live       bool
 	how        string
+	forge      int // the creating request carried a forged forwarding header (op.Forge)
 }
 
 type world struct {
 	cfg      int
+	px       int
+	ips      []string
 	srv      *hls.Server
 	base     string
-	client   *http.Client
-	tr       *http.Transport
+	clients  map[string]*http.Client // by TCP source address ("" = unbound, i.e. 127.0.0.1)
+	trs      []*http.Transport
 	pm       *pmStub
 	ref      map[string]*refFiles
 	sessions []*msession
@@ -300,15 +329,19 @@ type world struct {
 	anomaly  []string
 }
 
-func newWorld(cfg int) *world {
-	w := &world{cfg: cfg, ref: map[string]*refFiles{}, cdnIndex: map[string]bool{}}
-	w.pm = &pmStub{paths: map[string]*pathStub{}, auth: newAuthManager()}
+func newWorld(cfg, px int) *world {
+	w := &world{cfg: cfg, px: px, ips: worldIPs[px], ref: map[string]*refFiles{}, cdnIndex: map[string]bool{}, clients: map[string]*http.Client{}}
+	w.pm = &pmStub{paths: map[string]*pathStub{}, auth: newAuthManager(px)}
 	for i, n := range pathNames {
 		w.pm.paths[n] = newPath(i, n)
 	}
 	secret := cdnSecret
 	if cfg == 1 {
 		secret = ""
+	}
+	trusted := conf.IPNetworks{ipnet("127.0.0.1/32")}
+	if px == pxDirect {
+		trusted = nil // the default: no trusted proxies
 	}
 	w.srv = &hls.Server{
 		Address:         "127.0.0.1:0",
@@ -318,7 +351,7 @@ func newWorld(cfg int) *world {
 		SegmentDuration: conf.Duration(1 * time.Second),
 		PartDuration:    conf.Duration(200 * time.Millisecond),
 		SegmentMaxSize:  50 * 1024 * 1024,
-		TrustedProxies:  conf.IPNetworks{ipnet("127.0.0.1/32")},
+		TrustedProxies:  trusted,
 		CDNSecret:       secret,
 		ReadTimeout:     conf.Duration(20 * time.Second),
 		WriteTimeout:    conf.Duration(20 * time.Second),
@@ -330,13 +363,25 @@ func newWorld(cfg int) *world {
 		vcommon.Harness("hls server: %v", err)
 	}
 	w.base = "http://" + hls.VerifC43ListenAddr(w.srv).String()
-	w.tr = &http.Transport{MaxIdleConns: 8, MaxIdleConnsPerHost: 8}
-	w.client = &http.Client{
-		Transport: w.tr,
-		Timeout:   30 * time.Second,
-		CheckRedirect: func(*http.Request, []*http.Request) error {
-			return http.ErrUseLastResponse
-		},
+	srcs := []string{""}
+	if px == pxDirect {
+		srcs = w.ips
+	}
+	for _, src := range srcs {
+		tr := &http.Transport{MaxIdleConns: 8, MaxIdleConnsPerHost: 8}
+		if src != "" {
+			// the client IP of the direct world: the source address the socket is bound to
+			d := &net.Dialer{LocalAddr: &net.TCPAddr{IP: net.ParseIP(src)}, Timeout: 20 * time.Second}
+			tr.DialContext = d.DialContext
+		}
+		w.trs = append(w.trs, tr)
+		w.clients[src] = &http.Client{
+			Transport: tr,
+			Timeout:   30 * time.Second,
+			CheckRedirect: func(*http.Request, []*http.Request) error {
+				return http.ErrUseLastResponse
+			},
+		}
 	}
 	// feed both streams once the always-remux muxers have attached, then wait (blocking LL-HLS
 	// playlist request straight at the gohlslib muxer: an event, not a sleep) until the last complete
@@ -420,8 +465,14 @@ func (w *world) discover(path string) {
 	w.ref[path] = rf
 }
 
+func (w *world) closeIdle() {
+	for _, tr := range w.trs {
+		tr.CloseIdleConnections()
+	}
+}
+
 func (w *world) close() {
-	w.tr.CloseIdleConnections()
+	w.closeIdle()
 	w.srv.Close()
 	for _, p := range w.pm.paths {
 		p.strm.Close()
@@ -434,6 +485,8 @@ type hreq struct {
 	cookie  string
 	xff     string
 	authz   string
+	src     string      // direct world: TCP source address of the connection
+	hdrs    [][2]string // further client-supplied headers (forwarding headers)
 }
 
 func (w *world) do(r hreq) (int, http.Header, []byte) {
@@ -454,7 +507,14 @@ func (w *world) do(r hreq) (int, http.Header, []byte) {
 	if r.authz != "" {
 		req.Header.Set("Authorization", r.authz)
 	}
-	res, err := w.client.Do(req)
+	for _, h := range r.hdrs {
+		req.Header.Set(h[0], h[1])
+	}
+	cl := w.clients[r.src]
+	if cl == nil {
+		vcommon.Harness("no client bound to source address %q in this world", r.src)
+	}
+	res, err := cl.Do(req)
 	if err != nil {
 		vcommon.Harness("request %+v: %v", r, err)
 	}
@@ -481,8 +541,25 @@ func (w *world) apply(o op) {
 	switch o.Kind {
 	case opCreate:
 		c := creds[o.Cred]
-		path, ip := pathNames[o.Path], ips[o.IP]
-		r := hreq{urlPath: "/" + path + "/index.m3u8", query: "cookieCheck=1", xff: ip, authz: basic(c)}
+		path, ip, other := pathNames[o.Path], w.ips[o.IP], w.ips[1-o.IP]
+		r := hreq{urlPath: "/" + path + "/index.m3u8", query: "cookieCheck=1", authz: basic(c)}
+		if w.px == pxProxy {
+			r.xff = ip // what the trusted proxy reports
+			switch o.Forge {
+			case 1:
+				r.xff = other + ", " + ip // the client sent X-Forwarded-For: other, the proxy appended the peer
+			case 2:
+				r.hdrs = [][2]string{{"X-Real-Ip", other}}
+			}
+		} else {
+			r.src = ip // the address the client really connects from
+			switch o.Forge {
+			case 1:
+				r.xff = other
+			case 2:
+				r.hdrs = [][2]string{{"X-Real-Ip", other}}
+			}
+		}
 		if o.Mode == 1 {
 			r.cookie = "cookieCheck=1"
 		}
@@ -497,9 +574,9 @@ func (w *world) apply(o op) {
 		} else if m := reSessionQuery.FindSubmatch(body); m != nil {
 			secret = string(m[1])
 		}
-		auth := modelAuthorized(c, path, ip)
+		auth := modelAuthorized(c, path, ip, w.px)
 		if secret != "" {
-			w.sessions = append(w.sessions, &msession{path: path, ip: ip, secret: secret, authorized: auth, live: true, how: o.String()})
+			w.sessions = append(w.sessions, &msession{path: path, ip: ip, secret: secret, authorized: auth, live: true, how: o.String(), forge: o.Forge})
 		} else if auth {
 			w.anomaly = append(w.anomaly, fmt.Sprintf("%s: authorized by the model but no session secret was handed out (status %d)", o, code))
 		}
@@ -509,7 +586,13 @@ func (w *world) apply(o op) {
 		if o.Mode == 1 {
 			hdr = "Bearer "
 		}
-		code, _, _ := w.do(hreq{urlPath: "/" + path + "/index.m3u8", xff: ips[0], authz: hdr})
+		cr := hreq{urlPath: "/" + path + "/index.m3u8", authz: hdr}
+		if w.px == pxProxy {
+			cr.xff = w.ips[0]
+		} else {
+			cr.src = w.ips[0]
+		}
+		code, _, _ := w.do(cr)
 		if code == 200 && w.cfg == 0 && o.Mode == 0 {
 			w.cdnIndex[path] = true
 		}
@@ -571,6 +654,11 @@ func (w *world) key() string {
 			for _, s := range w.sessions {
 				if s.secret == rs.Secret.String() {
 					known = fmt.Sprintf("auth=%v", s.authorized)
+					if s.ip != rs.IP {
+						// the record's IP is not the IP the client really had: a different state for
+						// the reference model (never happens on a correct tree)
+						known += "/really-from-" + s.ip
+					}
 				}
 			}
 			if rs.IsCDN {
@@ -586,7 +674,11 @@ func (w *world) key() string {
 	}
 	sort.Strings(live)
 	sort.Strings(gone)
-	return fmt.Sprintf("cdn=%v | %s | %s", w.cfg == 0, strings.Join(live, " "), strings.Join(gone, " "))
+	world := ""
+	if w.px == pxDirect {
+		world = "no-trusted-proxies "
+	}
+	return fmt.Sprintf("%scdn=%v | %s | %s", world, w.cfg == 0, strings.Join(live, " "), strings.Join(gone, " "))
 }
 
 // ---------------------------------------------------------------------------------------------
@@ -603,15 +695,75 @@ type prodStats struct {
 	refused   int
 	denied401 int
 	authDeny  int // request satisfied the statement's condition but was refused (allowed, reported)
-	classes   map[string]int
+	// direct world only
+	forgedPin      int // requests with the secret of a live authorized session of the path from ANOTHER address, with forwarding headers naming the session's address
+	forgedEntitled int // entitled requests (right secret, right address) whose forwarding headers name another address
+	classes        map[string]int
 }
 
-func clientIP(xff string) string {
-	if xff == "" {
-		return "127.0.0.1"
+// ipChoice is one value of the "who sends the request" dimension.
+type ipChoice struct {
+	name string      // stable name used in outcome classes
+	src  string      // direct world: TCP source address
+	xff  string      // X-Forwarded-For
+	hdrs [][2]string // other forwarding headers
+	cip  string      // the request's client IP according to the statement (reference model)
+	forg string      // "" or the kind of client-supplied forwarding header(s) naming the other IP
+}
+
+// ipChoices enumerates the dimension for a world.
+//
+// Proxy world: the harness is the trusted proxy 127.0.0.1; the client IP is the right-most
+// X-Forwarded-For entry (what a real proxy appends), 127.0.0.1 without the header.
+//
+// Direct world: nobody is trusted; the client IP is the TCP source address whatever the headers say.
+// Every source address is crossed with the forwarding-header forms, each naming the OTHER address O
+// (S = the sender's own address).
+func ipChoices(px int, thorough bool) []ipChoice {
+	ips := worldIPs[px]
+	var out []ipChoice
+	if px == pxProxy {
+		xffs := []string{ips[0], ips[1], ips[0] + ", " + ips[1]}
+		if thorough {
+			xffs = append(xffs, ips[1]+", "+ips[0], "")
+		}
+		for _, x := range xffs {
+			c := ipChoice{name: "xff[" + x + "]", xff: x, cip: "127.0.0.1"}
+			if x != "" {
+				parts := strings.Split(x, ",")
+				c.cip = strings.TrimSpace(parts[len(parts)-1])
+			}
+			out = append(out, c)
+		}
+		return out
 	}
-	parts := strings.Split(xff, ",")
-	return strings.TrimSpace(parts[len(parts)-1])
+	for i, s := range ips {
+		o := ips[1-i]
+		forms := []ipChoice{
+			{forg: ""},
+			{forg: "xff", xff: o},
+			{forg: "x-real-ip", hdrs: [][2]string{{"X-Real-Ip", o}}},
+			{forg: "xff+x-real-ip", xff: o, hdrs: [][2]string{{"X-Real-Ip", o}}},
+			{forg: "xff-chain-other-first", xff: o + ", " + s},
+		}
+		if thorough {
+			forms = append(forms,
+				ipChoice{forg: "xff-chain-other-last", xff: s + ", " + o},
+				ipChoice{forg: "xff-self+x-real-ip", xff: s, hdrs: [][2]string{{"X-Real-Ip", o}}},
+				ipChoice{forg: "forwarded", hdrs: [][2]string{{"Forwarded", "for=" + o}}},
+				ipChoice{forg: "platform-headers", hdrs: [][2]string{{"CF-Connecting-IP", o}, {"X-Appengine-Remote-Addr", o}, {"Fly-Client-IP", o}, {"X-Client-Ip", o}, {"True-Client-Ip", o}}},
+			)
+		}
+		for _, f := range forms {
+			f.src, f.cip = s, s
+			f.name = fmt.Sprintf("src#%d", i)
+			if f.forg != "" {
+				f.name += "+forged-" + f.forg
+			}
+			out = append(out, f)
+		}
+	}
+	return out
 }
 
 func (w *world) product(thorough bool, st *prodStats) []finding {
@@ -628,10 +780,7 @@ func (w *world) product(thorough bool, st *prodStats) []finding {
 	for i, s := range w.sessions {
 		secrets = append(secrets, secretChoice{fmt.Sprintf("session#%d", i), s.secret, s})
 	}
-	xffs := []string{ips[0], ips[1], ips[0] + ", " + ips[1]}
-	if thorough {
-		xffs = append(xffs, ips[1]+", "+ips[0], "")
-	}
+	senders := ipChoices(w.px, thorough)
 	authzs := []struct{ name, val string }{
 		{"none", ""}, {"bearer-cdn", "Bearer " + cdnSecret}, {"bearer-wrong", "Bearer wrongsecret"},
 		{"bearer-empty", "Bearer "}, {"basic-alice", basic(creds[0])},
@@ -662,9 +811,10 @@ func (w *world) product(thorough bool, st *prodStats) []finding {
 					placements = []string{"-"}
 				}
 				for _, pl := range placements {
-					for _, xff := range xffs {
+					for _, snd := range senders {
+						xff := snd.xff
 						for _, az := range authzs {
-							r := hreq{urlPath: tg.urlDir + "/" + f.name, xff: xff, authz: az.val}
+							r := hreq{urlPath: tg.urlDir + "/" + f.name, xff: xff, authz: az.val, src: snd.src, hdrs: snd.hdrs}
 							bogus := "11111111-2222-3333-4444-555555555555"
 							switch pl {
 							case "query":
@@ -701,7 +851,7 @@ func (w *world) product(thorough bool, st *prodStats) []finding {
 							}
 
 							// the statement's condition
-							cip := clientIP(xff)
+							cip := snd.cip
 							// the scheme name is case-insensitive (RFC 9110): "bearer <secret>" still carries the secret
 							cdnOK := w.cfg == 0 && len(az.val) > 7 && strings.EqualFold(az.val[:7], "Bearer ") && az.val[7:] == cdnSecret
 							sessOK := func(p string) bool {
@@ -710,6 +860,13 @@ func (w *world) product(thorough bool, st *prodStats) []finding {
 
 							desc := map[string]any{"target": tg.urlDir, "file": f.kind, "secret": sc.name, "placement": pl,
 								"x_forwarded_for": xff, "authorization": az.name}
+							if w.px == pxDirect {
+								desc["trusted_proxies"] = "none"
+								desc["tcp_source_address"] = snd.src
+								if len(snd.hdrs) > 0 {
+									desc["forwarding_headers"] = snd.hdrs
+								}
+							}
 							if sc.sess != nil {
 								desc["session"] = fmt.Sprintf("%s live=%v authorized=%v", sc.sess.how, sc.sess.live, sc.sess.authorized)
 							}
@@ -736,7 +893,19 @@ func (w *world) product(thorough bool, st *prodStats) []finding {
 							if servedPath != "" {
 								outcome = "served"
 							}
-							st.classes[fmt.Sprintf("%s|%s|%s|%s|cdn=%v|%s", f.kind, rel, pl, az.name, w.cfg == 0, outcome)]++
+							wtag := ""
+							if w.px == pxDirect {
+								// direct world: classes also tell the forwarding-header form apart
+								wtag = "direct:"
+								rel += "/" + snd.forg
+								if sessOK(tg.path) && snd.forg != "" {
+									st.forgedEntitled++ // own secret from the right address, headers lie: still entitled
+								}
+								if sc.sess != nil && sc.sess.live && sc.sess.authorized && sc.sess.path == tg.path && sc.sess.ip != cip && snd.forg != "" {
+									st.forgedPin++ // THE attack: right secret, wrong address, headers name the session's address
+								}
+							}
+							st.classes[fmt.Sprintf("%s%s|%s|%s|%s|cdn=%v|%s", wtag, f.kind, rel, pl, az.name, w.cfg == 0, outcome)]++
 
 							if servedPath == "" {
 								st.refused++
@@ -749,11 +918,11 @@ func (w *world) product(thorough bool, st *prodStats) []finding {
 								continue
 							}
 							if cdnOK {
-								st.served["cdn/"+f.kind]++
+								st.served[wtag+"cdn/"+f.kind]++
 								continue
 							}
 							if sessOK(servedPath) {
-								st.served["session-"+pl+"/"+f.kind]++
+								st.served[wtag+"session-"+pl+"/"+f.kind]++
 								continue
 							}
 							// violation: classify
@@ -771,6 +940,18 @@ func (w *world) product(thorough bool, st *prodStats) []finding {
 								reason = "not-the-cdn-secret:" + az.name
 							case az.name == "basic-alice":
 								reason = "credentials-without-session"
+							}
+							if w.px == pxDirect {
+								// the default configuration is its own class; a forged forwarding header is named
+								// (the header form only where the client IP decides: other reasons do not depend on it)
+								ipReason := reason == "session-from-other-ip"
+								reason += ":no-trusted-proxies"
+								if ipReason && snd.forg != "" {
+									reason += ":forged-" + snd.forg
+								}
+							}
+							if sc.sess != nil && sc.sess.forge != 0 && (strings.HasPrefix(reason, "session-from-other-ip") || strings.HasPrefix(reason, "session-of-unauthorized-client")) {
+								reason += ":session-created-with" + strings.ReplaceAll(forgeNames[sc.sess.forge], ",", "-")
 							}
 							out = append(out, finding{
 								key:  "served-" + reason,
@@ -804,13 +985,13 @@ type result struct {
 func run(h []op, check, thorough bool) (r result) {
 	r.stats.served = map[string]int{}
 	r.stats.classes = map[string]int{}
-	w := newWorld(h[0].Cfg)
+	w := newWorld(h[0].Cfg, h[0].Px)
 	defer func() {
 		// a server whose records deviate from the model (e.g. a kicked session still registered) may
 		// crash the process while shutting down (double close of the session's reader); it is leaked
 		// instead so that the findings of this run are still reported
 		if w.deviates() || len(r.findings) > 0 {
-			w.tr.CloseIdleConnections()
+			w.closeIdle()
 			return
 		}
 		w.close()
@@ -837,21 +1018,26 @@ func run(h []op, check, thorough bool) (r result) {
 	return r
 }
 
-func successors(h []op, nsess int, live []bool, credSet []int) []op {
+// successors lists the operations that may follow history h. nforge = number of forged-header
+// variants of Create (beyond the plain one) enumerated in h's world.
+func successors(h []op, nsess int, live []bool, credSet []int, nforge int) []op {
 	var out []op
+	px := h[0].Px
 	for p := range pathNames {
-		for ip := range ips {
+		for ip := range worldIPs[px] {
 			for _, c := range credSet {
 				for mode := 0; mode < 2; mode++ {
-					out = append(out, op{Kind: opCreate, Path: p, IP: ip, Cred: c, Mode: mode})
+					for fg := 0; fg <= nforge; fg++ {
+						out = append(out, op{Kind: opCreate, Px: px, Path: p, IP: ip, Cred: c, Mode: mode, Forge: fg})
+					}
 				}
 			}
 		}
-		out = append(out, op{Kind: opCDN, Path: p, Mode: 0}, op{Kind: opCDN, Path: p, Mode: 1})
+		out = append(out, op{Kind: opCDN, Px: px, Path: p, Mode: 0}, op{Kind: opCDN, Px: px, Path: p, Mode: 1})
 	}
 	for k := 0; k < nsess; k++ {
 		if live[k] {
-			out = append(out, op{Kind: opKick, K: k})
+			out = append(out, op{Kind: opKick, Px: px, K: k})
 		}
 	}
 	return out
@@ -861,6 +1047,9 @@ func main() {
 	depth := flag.Int("depth", 3, "maximum number of operations after Init")
 	ncreds := flag.Int("creds", 4, "size of the credential alphabet for session creation")
 	maxSess := flag.Int("maxsess", 3, "maximum number of session records (created ever) in a history")
+	ddepth := flag.Int("ddepth", 2, "maximum number of operations after Init in the direct world (no trusted proxies)")
+	dforge := flag.Int("dforge", 1, "forged-header variants of Create in the direct world (0..2)")
+	pforge := flag.Int("pforge", 0, "forged-header variants of Create in the proxy world (0..2)")
 	budget := flag.Duration("budget", 10*time.Minute, "internal deadline")
 	probe := flag.Bool("probe", false, "print the discovered files and exit")
 	r := vcommon.Start("C43", "model_checking")
@@ -871,27 +1060,29 @@ func main() {
 	if *probe {
 		for i := 0; i < 5; i++ {
 			t := time.Now()
-			w0 := newWorld(0)
+			w0 := newWorld(0, i%2)
 			t1 := time.Since(t)
 			w0.close()
 			fmt.Printf("world: create %v close %v\n", t1, time.Since(t)-t1)
 		}
-		w := newWorld(0)
-		for _, n := range pathNames {
-			fmt.Printf("%s: %+v\n", n, w.ref[n].files)
+		for px := 0; px < 2; px++ {
+			w := newWorld(0, px)
+			for _, n := range pathNames {
+				fmt.Printf("%s: %+v\n", n, w.ref[n].files)
+			}
+			w.apply(op{Kind: opCreate, Px: px, Path: 0, IP: 0, Cred: 0, Mode: 0})
+			w.apply(op{Kind: opCreate, Px: px, Path: 1, IP: 1, Cred: 1, Mode: 1, Forge: 1})
+			w.apply(op{Kind: opCreate, Px: px, Path: 0, IP: 1, Cred: 2, Mode: 1})
+			w.apply(op{Kind: opCDN, Px: px, Path: 0})
+			fmt.Println(w.key(), w.anomaly)
+			var st prodStats
+			st.served = map[string]int{}
+			st.classes = map[string]int{}
+			t := time.Now()
+			f := w.product(thorough, &st)
+			fmt.Printf("%d findings, %d requests, served %v refused %d forgedPin %d forgedEntitled %d in %v\n", len(f), st.requests, st.served, st.refused, st.forgedPin, st.forgedEntitled, time.Since(t))
+			w.close()
 		}
-		w.apply(op{Kind: opCreate, Path: 0, IP: 0, Cred: 0, Mode: 0})
-		w.apply(op{Kind: opCreate, Path: 1, IP: 1, Cred: 1, Mode: 1})
-		w.apply(op{Kind: opCreate, Path: 0, IP: 1, Cred: 2, Mode: 1})
-		w.apply(op{Kind: opCDN, Path: 0})
-		fmt.Println(w.key(), w.anomaly)
-		var st prodStats
-		st.served = map[string]int{}
-		st.classes = map[string]int{}
-		t := time.Now()
-		f := w.product(thorough, &st)
-		fmt.Printf("%d findings, %+v in %v\n", len(f), st, time.Since(t))
-		w.close()
 		os.Exit(0)
 	}
 
@@ -899,18 +1090,25 @@ func main() {
 	for i := 0; i < *ncreds && i < len(creds); i++ {
 		credSet = append(credSet, i)
 	}
-	r.Rule = fmt.Sprintf("BFS over histories Init(cdn on/off)·{Create(path,ip,cred,query|cookie), CDNIndex(path, Bearer cdn|Bearer empty), Kick(k)}* (<=%d operations, <=%d sessions) "+
-		"on a fresh real hls.Server per transition; states deduplicated by (cdn configured, sorted live session records path@ip, CDN sessions, kicked sessions); "+
-		"in every distinct state the full product target x file x secret x placement x X-Forwarded-For x Authorization is requested over TCP; "+
-		"distinct = state keys plus request outcome classes (file kind | relation of the presented secret to the sessions and to the client IP | placement | Authorization kind | cdn configured | served or status)", *depth, *maxSess)
+	r.Rule = fmt.Sprintf("BFS over histories Init(cdn on/off, trusted proxies = loopback | none (default))·{Create(path,ip,cred,query|cookie[,forged forwarding header]), CDNIndex(path, Bearer cdn|Bearer empty), Kick(k)}* "+
+		"(proxy world <=%d operations, direct world <=%d operations, <=%d sessions) "+
+		"on a fresh real hls.Server per transition; states deduplicated by (trusted proxies, cdn configured, sorted live session records path@ip, CDN sessions, kicked sessions); "+
+		"in every distinct state the full product target x file x secret x placement x sender x Authorization is requested over TCP, where sender = X-Forwarded-For value (proxy world: the harness is the trusted proxy) "+
+		"or TCP source address {127.0.0.1, 127.0.0.2} x forged forwarding headers naming the other address (direct world); "+
+		"distinct = state keys plus request outcome classes (world | file kind | relation of the presented secret to the sessions and to the client IP [| forged header form] | placement | Authorization kind | cdn configured | served or status)", *depth, *ddepth, *maxSess)
+	depthOf := [2]int{*depth, *ddepth}
+	forgeOf := [2]int{*pforge, *dforge}
 
 	// determinism discipline
-	ph := []op{{Kind: opInit}, {Kind: opCreate, Path: 0, IP: 0, Cred: 0, Mode: 0}, {Kind: opCDN, Path: 1}, {Kind: opKick, K: 0}}
-	a, b := run(ph, true, false), run(ph, true, false)
-	if a.key != b.key || a.stats.requests != b.stats.requests || a.stats.refused != b.stats.refused || len(a.findings) != len(b.findings) {
-		vcommon.Harness("nondeterministic replay: %q/%d/%d vs %q/%d/%d", a.key, a.stats.requests, a.stats.refused, b.key, b.stats.requests, b.stats.refused)
+	execs := 0
+	for px := 0; px < 2; px++ {
+		ph := []op{{Kind: opInit, Px: px}, {Kind: opCreate, Px: px, Path: 0, IP: 0, Cred: 0, Mode: 0}, {Kind: opCDN, Px: px, Path: 1}, {Kind: opKick, Px: px, K: 0}}
+		a, b := run(ph, true, false), run(ph, true, false)
+		if a.key != b.key || a.stats.requests != b.stats.requests || a.stats.refused != b.stats.refused || len(a.findings) != len(b.findings) {
+			vcommon.Harness("nondeterministic replay: %q/%d/%d vs %q/%d/%d", a.key, a.stats.requests, a.stats.refused, b.key, b.stats.requests, b.stats.refused)
+		}
+		execs += 2
 	}
-	execs := 2
 
 	type state struct {
 		hist  []op
@@ -924,6 +1122,7 @@ func main() {
 	served := map[string]int{}
 	reqClasses := map[string]bool{}
 	refused, denied401, authDeny := 0, 0, 0
+	forgedPin, forgedEntitled := 0, 0
 	anomalies := map[string]int{}
 	exhausted := true
 	abort := false // a state whose records contradict the model was met: report and stop
@@ -935,7 +1134,7 @@ func main() {
 		for _, o := range h {
 			switch o.Kind {
 			case opCreate:
-				if modelAuthorized(creds[o.Cred], pathNames[o.Path], ips[o.IP]) {
+				if modelAuthorized(creds[o.Cred], pathNames[o.Path], worldIPs[o.Px][o.IP], o.Px) {
 					live = append(live, true)
 				}
 			case opKick:
@@ -972,6 +1171,8 @@ func main() {
 			refused += res.stats.refused
 			denied401 += res.stats.denied401
 			authDeny += res.stats.authDeny
+			forgedPin += res.stats.forgedPin
+			forgedEntitled += res.stats.forgedEntitled
 			for k, v := range res.stats.served {
 				served[k] += v
 			}
@@ -1045,13 +1246,21 @@ func main() {
 		return next
 	}
 
-	frontier := expand([][]op{{{Kind: opInit, Cfg: 0}}, {{Kind: opInit, Cfg: 1}}})
+	frontier := expand([][]op{
+		{{Kind: opInit, Cfg: 0, Px: pxProxy}}, {{Kind: opInit, Cfg: 1, Px: pxProxy}},
+		{{Kind: opInit, Cfg: 0, Px: pxDirect}}, {{Kind: opInit, Cfg: 1, Px: pxDirect}},
+	})
 	checkStates(frontier)
 	completed := 0
-	for d := 1; d <= *depth && len(frontier) > 0; d++ {
+	maxDepth := max(depthOf[0], depthOf[1])
+	for d := 1; d <= maxDepth && len(frontier) > 0; d++ {
 		var jobs [][]op
 		for _, s := range frontier {
-			for _, o := range successors(s.hist, s.nsess, s.live, credSet) {
+			px := s.hist[0].Px
+			if d > depthOf[px] {
+				continue
+			}
+			for _, o := range successors(s.hist, s.nsess, s.live, credSet, forgeOf[px]) {
 				if o.Kind == opCreate && s.nsess >= *maxSess {
 					continue
 				}
@@ -1075,7 +1284,10 @@ func main() {
 
 	// non-vacuity: media must really have been served through each legitimate door
 	if exhausted {
-		for _, door := range []string{"cdn/", "session-query/", "session-cookie/"} {
+		if forgedPin == 0 || forgedEntitled == 0 {
+			vcommon.Harness("vacuous: the direct world never presented a session secret with forged forwarding headers (%d from another address, %d from the right one)", forgedPin, forgedEntitled)
+		}
+		for _, door := range []string{"cdn/", "session-query/", "session-cookie/", "direct:cdn/", "direct:session-query/", "direct:session-cookie/"} {
 			n := 0
 			for k, v := range served {
 				if strings.HasPrefix(k, door) {
@@ -1100,15 +1312,19 @@ func main() {
 	r.Set("served_by_class", served)
 	r.Set("request_outcome_classes", len(reqClasses))
 	r.Set("entitled_but_refused", authDeny)
-	r.Set("bound_completed", completed)
+	r.Set("bound_completed", min(completed, depthOf[0]))
+	r.Set("bound_completed_direct_world", min(completed, depthOf[1]))
+	r.Set("direct_world_forged_header_requests_with_foreign_session_secret", forgedPin)
+	r.Set("direct_world_forged_header_requests_entitled", forgedEntitled)
 	r.Exhaustive = exhausted
 	if !exhausted {
 		r.Note("internal deadline hit: histories up to %d operations completed", completed)
 	}
 	r.Assumptions = []string{
-		"path manager is a stub that authenticates with a real auth.Manager (internal users alice: all paths, bob: path b, carol: path a from 10.0.0.1 only); core.pathManager is not in the loop",
+		"path manager is a stub that authenticates with a real auth.Manager (internal users alice: all paths, bob: path b, carol: path a from the first client IP of the world only); core.pathManager is not in the loop",
 		"AlwaysRemux=true, Low-Latency variant, two paths with distinct H264 streams of 5 IDR frames fed before the first request; muxers never close during a history",
-		"only trusted proxy is 127.0.0.1; the client IP is the right-most X-Forwarded-For entry (what a real proxy appends)",
+		"proxy world: only trusted proxy is 127.0.0.1 (the harness); the client IP is the right-most X-Forwarded-For entry (what a real proxy appends)",
+		"direct world (TrustedProxies empty, the default): the client IP is the TCP source address of the connection (client sockets bound to 127.0.0.1 / 127.0.0.2; needs Linux loopback semantics, every 127/8 address local); forwarding headers are client-supplied and carry no authority",
 		"'session' = a live record (a kicked session's secret must not be served any more: the design's reading of 'a session'); expiry by the 10 s cleanup ticker after 30 s of inactivity is not exercised (no virtual clock in this harness)",
 		"only the 'served only to' direction is judged; entitled requests that are refused are counted (entitled_but_refused), not reported",
 		"reference bodies come from the gohlslib muxer directly (shim), so serving is recognised by content, not by status alone",
